@@ -376,6 +376,31 @@ func c19Tag(ast *syntax.Ast, e c19Edit) string {
 				}
 			}
 		}
+	case "removeUnused":
+		if len(e.Top) > 0 {
+			reach := map[string]bool{}
+			var visit func(name string)
+			visit = func(name string) {
+				if reach[name] {
+					return
+				}
+				reach[name] = true
+				if p, ok := ast.Callables.Table[name].(*syntax.Pipeline); ok && p != nil {
+					for _, c := range p.Calls {
+						visit(c.DecId)
+					}
+				}
+			}
+			for _, t := range e.Top {
+				visit(t)
+			}
+			for _, p := range ast.Pipelines {
+				if !reach[p.Id] {
+					tags = append(tags, "pipeline-outside-top-call-graph")
+					break
+				}
+			}
+		}
 	case "renameCallable":
 		for _, p := range ast.Pipelines {
 			for _, c := range p.Calls {
@@ -529,6 +554,8 @@ func c19Family(op, what, tag string) string {
 		return "C19:callable-outputs-used-as-struct"
 	case has("wildcard"):
 		return "C19:wildcard-binding-not-adjusted"
+	case op == "removeUnused" && what == "compile-NoSuchOutputError" && has("pipeline-outside-top-call-graph"):
+		return "C19:unused-outputs-breaks-pipelines-outside-top-calls"
 	case strings.HasPrefix(op, "remove") && what == "compile-UnusedInputError":
 		return "C19:removal-leaves-unused-pipeline-input"
 	}
